@@ -73,11 +73,12 @@ class NumberType(Type):
         """
         if unit:
             if self.unit and self.unit!=unit:
+                value = np.array(self.value, dtype=float) if isinstance(self.value, (list, np.ndarray)) else float(self.value)
                 if env is None:
-                    self.value = Quantity(float(self.value), self.unit).value(unit)
+                    self.value = Quantity(value, self.unit).value(unit)
                 else:
                     with UnitEnvironment(env.units):
-                        self.value = Quantity(float(self.value), self.unit).value(unit)
+                        self.value = Quantity(value, self.unit).value(unit)
                 self.unit = unit
         return self
  
